@@ -18,7 +18,7 @@ MUTS = {
                     bucket.append((base_name, replacement))
 """),
  "M8-chksum-mismatch-ignored": ("            if o != v:\n                return False\n", "            if o != v:\n                found = True\n"),
- "M9-ignore-filter-search": ("values.StrRegex(fnmatch.translate(x), match=True)", "values.StrRegex(fnmatch.translate(x))"),
+ "M9-ignore-filter-search": ("        values.StrRegex(fnmatch.translate(x), match=True)\n        for x in stable_unique(ignored)", "        values.StrRegex(fnmatch.translate(x))\n        for x in stable_unique(ignored)"),
 }
 which = sys.argv[1:] or list(MUTS)
 for name in which:
